@@ -360,7 +360,7 @@ fn sparse(ctx: &mut Ctx, cov: &mut HashSet<String>) {
                 hostile_bv(h_reborrow(&mut h), &mut rng, &mut bv, None, 10);
                 h.what = saved;
             }
-            h.call("RLVector::copy_bit_vec(SparseVector)", "-", 0, || { let rv = RLVector::copy_bit_vec(&sv); (rv.len(), rv.count_ones(), rv.one_iter().count()) });
+            if !multiset { h.call("RLVector::copy_bit_vec(SparseVector)", "-", 0, || { let rv = RLVector::copy_bit_vec(&sv); (rv.len(), rv.count_ones(), rv.one_iter().count()) }); }
         }
         // Builder with hostile calls.
         let (u, cls) = hostile(&mut rng, n);
